@@ -3,7 +3,7 @@
 """
 
 # Std-Lib Imports
-from typing import List, Union, Sequence
+from typing import List, Optional, Union, Sequence
 from decimal import Decimal
 
 # VLSIR Import
@@ -79,7 +79,7 @@ class SimProtoExporter:
         elif is_analysis(attr):
             self.inp.an.append(self.export_analysis(attr))
         elif is_control(attr):
-            self.inp.ctrls.append(export_control(attr))
+            self.inp.ctrls.append(export_control(attr, tb=self.sim.tb))
         else:
             raise TypeError(f"Invalid SimAttr: {attr}")
 
@@ -176,19 +176,19 @@ class SimProtoExporter:
         from ..instance import Instance
         from ..bundle import BundleInstance
         from ..diff_pair import Diff
+        from ..elab.passes.flatten_bundles import THE_CACHE as FLATTENED, Path
 
         analysis_name = noise.name or self.next_analysis_name()
 
         # Sort out the output
         output = noise.output
         def name_of(x) -> str:
-            # The name of a single-ended output: given as such, or that of a named connectable (a Signal, generally)
+            # The name of a single-ended output: given as such, or that of a (named) Signal of the testbench
             if isinstance(x, str):
                 return x
-            name = getattr(x, "name", None) if is_connectable(x) else None
-            if not isinstance(name, str):
+            if not isinstance(x, Signal):
                 raise ValueError(f"Invalid Noise Output: {x}")
-            return name
+            return signal_name(x, self.sim.tb)
 
         if isinstance(output, tuple):
             if len(output) != 2:
@@ -196,10 +196,15 @@ class SimProtoExporter:
             output_p, output_n = name_of(output[0]), name_of(output[1])
 
         elif isinstance(output, BundleInstance):
-            # Allow for `Diff` bundles, by the names their `p` and `n` are flattened to
+            # Allow for `Diff` bundles, by the names their `p` and `n` were flattened to
             if output.of is not Diff:
                 raise ValueError(f"Invalid Noise Output: {output}")
-            output_p, output_n = f"{output.name}_p", f"{output.name}_n"
+            flat = FLATTENED.bundle_insts.get(id(output), None)
+            if flat is None or flat.src is not output:
+                msg = f"Invalid Noise Output: {output} is not a `Diff` of testbench {self.sim.tb.name}"
+                raise ValueError(msg)
+            output_p = name_of(flat.signals[Path(["p"])])
+            output_n = name_of(flat.signals[Path(["n"])])
 
         elif is_connectable(output):
             # Single-ended Signal output
@@ -215,6 +220,8 @@ class SimProtoExporter:
         # Sort out the input source
         if isinstance(noise.input_source, Instance):
             input_source = noise.input_source.name
+            if not isinstance(input_source, str) or not input_source:
+                raise ValueError(f"Invalid Noise Input Source: unnamed {noise.input_source}")
         elif isinstance(noise.input_source, str):
             input_source = noise.input_source
         else:
@@ -306,7 +313,7 @@ def export_options(options: data.Options) -> vsp.SimOptions:
     return vsp.SimOptions(name=options.name, value=export_param_value(options.value))
 
 
-def export_control(ctrl: data.Control) -> vsp.Control:
+def export_control(ctrl: data.Control, tb: Optional["Module"] = None) -> vsp.Control:
     """Export a `Control` element"""
     from ..proto import export_literal
 
@@ -315,7 +322,7 @@ def export_control(ctrl: data.Control) -> vsp.Control:
     if isinstance(ctrl, data.Lib):
         return vsp.Control(lib=export_lib(ctrl))
     if isinstance(ctrl, data.Save):
-        return vsp.Control(save=export_save(ctrl))
+        return vsp.Control(save=export_save(ctrl, tb))
     if isinstance(ctrl, data.Meas):
         return vsp.Control(meas=export_meas(ctrl))
     if isinstance(ctrl, data.Param):
@@ -333,7 +340,19 @@ def export_lib(lib: data.Lib) -> vsp.LibInclude:
     return vsp.LibInclude(path=str(lib.path), section=lib.section)
 
 
-def export_save(save: data.Save) -> vsp.Save:
+def signal_name(sig: Signal, tb: Optional["Module"] = None) -> str:
+    """The name by which Signal `sig` is referred to in simulation attributes.
+    Signals are referred to by name, in the scope of testbench `tb`: unnamed ones, and those of other Modules, cannot be."""
+    if not isinstance(sig.name, str) or not sig.name:
+        raise ValueError(f"Invalid simulation target: unnamed {sig}")
+    parent = getattr(sig, "_parent_module", None)
+    if tb is not None and parent is not None and parent is not tb:
+        msg = f"Invalid simulation target: {sig} is a Signal of {parent}, not of testbench {tb.name}"
+        raise ValueError(msg)
+    return sig.name
+
+
+def export_save(save: data.Save, tb: Optional["Module"] = None) -> vsp.Save:
     if isinstance(save.targ, data.SaveMode):
         if save.targ == data.SaveMode.ALL:
             mode = vsp.Save.SaveMode.ALL
@@ -345,11 +364,11 @@ def export_save(save: data.Save) -> vsp.Save:
             raise ValueError(msg)
         return vsp.Save(mode=mode)
     if isinstance(save.targ, Signal):
-        signal = save.targ.name
+        signal = signal_name(save.targ, tb)
     elif isinstance(save.targ, str):
         signal = save.targ
     elif isinstance(save.targ, list) and all(isinstance(s, Signal) for s in save.targ):
-        signal = ",".join([s.name for s in save.targ])
+        signal = ",".join([signal_name(s, tb) for s in save.targ])
     elif isinstance(save.targ, list) and all(isinstance(s, str) for s in save.targ):
         signal = ",".join([s for s in save.targ])
     else:
